@@ -146,6 +146,24 @@ def feasible_paths(ctx, body, region, goals, limit=400):
                             return tg
                         if isinstance(t.get("otherwise"), int):
                             return [t["otherwise"]]
+            if ds[0] == "discr":
+                x = S.strip_refs(ds[1])
+                if x[0] == "call" and x[1].endswith(("Ord::cmp", "::cmp")) and len(x[2]) == 2:
+                    # Ordering discriminant of a.cmp(&b): Less = -1, Equal = 0, Greater = 1
+                    which = None
+                    if region.decide_cmp("Lt", x[2][0], x[2][1]) is True:
+                        which = "less"
+                    elif region.decide_cmp("Gt", x[2][0], x[2][1]) is True:
+                        which = "greater"
+                    elif region.decide_cmp("Eq", x[2][0], x[2][1]) is True:
+                        which = "equal"
+                    if which is not None:
+                        tg = [b for v, b in t["targets"] if (v == 0 and which == "equal") or (v == 1 and which == "greater")
+                              or (v not in (0, 1) and which == "less")]
+                        if tg:
+                            return tg
+                        if isinstance(t.get("otherwise"), int):
+                            return [t["otherwise"]]
             bt = U.bool_switch_targets(t)
             if bt:
                 r = region.decide(d)
